@@ -513,6 +513,17 @@ def step (w : World) (line : String) : World × String :=
         (w.setT sid t', match out with | .inserted => "inserted" | .upgraded => "upgraded" | .noChange => "nochange")
       | none => (w, "no-store")
     | _, _, _, _ => (w, "bad-op")
+  -- the same through a caller that only learns whether the import succeeded
+  | ["tnsq", sid, ns, kind, raw] =>
+    match parseNat? sid, Bytes.ofHex ns, parseNat? kind, Bytes.ofHex raw with
+    | some sid, some ns, some kind, some raw =>
+      match w.getT sid with
+      | some t =>
+        let oldImports := (w.imports.lookup sid).getD []
+        let w := { w with imports := (sid, (ns, kind) :: oldImports) :: w.imports.filter (·.1 != sid) }
+        (w.setT sid (Tables.importNamespace t ns kind raw).1, "ok")
+      | none => (w, "no-store")
+    | _, _, _, _ => (w, "bad-op")
   | ["tput", sid, tok] =>
     match parseNat? sid, parseEntry? tok with
     | some sid, some e =>
